@@ -322,6 +322,102 @@ end Interp
 namespace Interp
 open Typing
 
+theorem andV_sound (a b r : Val) (hwa : WF a) (hwb : WF b) (h : Spec.andV a b = .ok r) :
+    WF r ∧ andTy (typeOf a) (typeOf b) = some (typeOf r) := by
+  unfold Spec.andV at h
+  split at h
+  · simp at h; subst h; simp [typeOf, andTy]
+  all_goals first
+    | (split at h
+       · simp at h; subst h; simp [typeOf, andTy, wf_nat]
+       · simp at h)
+    | simp at h
+
+theorem orV_sound (a b r : Val) (hwa : WF a) (hwb : WF b) (h : Spec.orV a b = .ok r) :
+    WF r ∧ orTy (typeOf a) (typeOf b) = some (typeOf r) := by
+  unfold Spec.orV at h
+  split at h
+  · simp at h; subst h; simp [typeOf, orTy]
+  · split at h
+    · simp at h; subst h; simp [typeOf, orTy, wf_nat]
+    · simp at h
+  · simp at h
+
+theorem xorV_sound (a b r : Val) (hwa : WF a) (hwb : WF b) (h : Spec.xorV a b = .ok r) :
+    WF r ∧ orTy (typeOf a) (typeOf b) = some (typeOf r) := by
+  unfold Spec.xorV at h
+  split at h
+  · simp at h; subst h; simp [typeOf, orTy]
+  · split at h
+    · simp at h; subst h; simp [typeOf, orTy, wf_nat]
+    · simp at h
+  · simp at h
+
+theorem typing_edivTy_eq : Typing.edivTy = Spec.edivTy := by funext a b; cases a <;> cases b <;> rfl
+
+theorem edivV_sound (a b r : Val) (hwa : WF a) (hwb : WF b) (h : Spec.edivV a b = .ok r) :
+    WF r ∧ edivResTy (typeOf a) (typeOf b) = some (typeOf r) := by
+  unfold Spec.edivV at h
+  split at h
+  · rename_i ta x tb y
+    simp only [edivResTy, typing_edivTy_eq, typeOf]
+    cases ht : Spec.edivTy ta tb with
+    | none => simp [ht] at h
+    | some p =>
+      obtain ⟨qt, rt⟩ := p
+      simp only [ht] at h ⊢
+      split at h
+      · simp at h; subst h; simp [typeOf]
+      · cases hq : Spec.numOk qt (x / y) with
+        | err => simp [hq] at h
+        | failed v => simp [hq] at h
+        | ok q =>
+          cases hq2 : Spec.numOk rt (x % y) with
+          | err => simp [hq, hq2] at h
+          | failed v => simp [hq, hq2] at h
+          | ok r' =>
+            simp [hq, hq2] at h; subst h
+            obtain ⟨a1, a2⟩ := numOk_sound qt _ q hq
+            obtain ⟨b1, b2⟩ := numOk_sound rt _ r' hq2
+            simp [typeOf, a1, a2, b1, b2]
+  · simp at h
+
+theorem lslV_sound (a b r : Val) (hwa : WF a) (hwb : WF b) (h : Spec.lslV a b = .ok r) :
+    WF r ∧ shiftTy (typeOf a) (typeOf b) = some (typeOf r) := by
+  unfold Spec.lslV at h
+  split at h
+  · split at h
+    · obtain ⟨h1, h2⟩ := numOk_sound .nat _ r h
+      simp [typeOf, shiftTy, h1, h2]
+    · simp at h
+  · simp at h
+
+theorem lsrV_sound (a b r : Val) (hwa : WF a) (hwb : WF b) (h : Spec.lsrV a b = .ok r) :
+    WF r ∧ shiftTy (typeOf a) (typeOf b) = some (typeOf r) := by
+  unfold Spec.lsrV at h
+  split at h
+  · split at h
+    · obtain ⟨h1, h2⟩ := numOk_sound .nat _ r h
+      simp [typeOf, shiftTy, h1, h2]
+    · simp at h
+  · simp at h
+
+theorem subMutezV_sound (a b r : Val) (hwa : WF a) (hwb : WF b) (h : Spec.subMutezV a b = .ok r) :
+    WF r ∧ subMutezTy (typeOf a) (typeOf b) = some (typeOf r) := by
+  unfold Spec.subMutezV at h
+  split at h
+  · split at h
+    · simp at h; subst h; simp [typeOf, subMutezTy]
+    · rename_i x y _
+      cases hq : Spec.numOk .mutez (x - y) with
+      | err => simp [hq] at h
+      | failed v => simp [hq] at h
+      | ok r' =>
+        simp [hq] at h; subst h
+        obtain ⟨h1, h2⟩ := numOk_sound .mutez _ r' hq
+        simp [typeOf, subMutezTy, h1, h2]
+  · simp at h
+
 theorem compare_simple (a b : Val) (c : Int) (hwa : WF a) (h : Spec.compare a b = some c) :
     simpleComparable (typeOf a) = true := by
   cases a <;> cases b <;> simp [Spec.compare] at h <;> try (simp [typeOf, simpleComparable]; done)
@@ -353,38 +449,56 @@ theorem sound_COMPARE (hev : Spec.step env .COMPARE st = .ok st') :
       simp [ht, hsc]
   · simp at hev
 
-theorem sound_bool2 (i : Instr) (op : Bool → Bool → Bool)
-    (hs : ∀ x y s, Spec.step env i (.bool x :: .bool y :: s) = .ok (.bool (op x y) :: s))
-    (hs' : ∀ a b s, (∀ x y, ¬ (a = .bool x ∧ b = .bool y)) → Spec.step env i (a :: b :: s) = .err)
+/-- instructions of the form `f a b : S → r : S` with a type function `tf` -/
+theorem sound_binop (i : Instr) (f : Val → Val → Res Val) (tf : Ty → Ty → Option Ty)
+    (hs : ∀ a b st, Spec.step env i (a :: b :: st) = (f a b).bind fun r => .ok (r :: st))
     (hs0 : Spec.step env i [] = .err) (hs1 : ∀ a, Spec.step env i [a] = .err)
-    (ht : ∀ s, Typing.step i (.bool :: .bool :: s) = some (.ok (.bool :: s)))
+    (ht : ∀ a b s, Typing.step i (a :: b :: s) = (tf a b).map fun t => .ok (t :: s))
+    (hf : ∀ a b r, WF a → WF b → f a b = .ok r → WF r ∧ tf (typeOf a) (typeOf b) = some (typeOf r))
     (hev : Spec.step env i st = .ok st') :
     StackWF st' ∧ Typing.step i (st.map typeOf) = some (.ok (st'.map typeOf)) := by
   rcases st with _ | ⟨a, _ | ⟨b, st⟩⟩
   · rw [hs0] at hev; cases hev
   · rw [hs1] at hev; cases hev
   rw [stackWF_cons, stackWF_cons] at hw
-  by_cases hb : ∃ x y, a = .bool x ∧ b = .bool y
-  · obtain ⟨x, y, rfl, rfl⟩ := hb
-    rw [hs] at hev; simp at hev; subst hev
-    simp [ht, typeOf, stackWF_cons, hw.2.2]
-  · rw [hs' a b st (fun x y h => hb ⟨x, y, h.1, h.2⟩)] at hev; cases hev
+  rw [hs] at hev
+  cases hq : f a b with
+  | err => simp [hq] at hev
+  | failed v => simp [hq] at hev
+  | ok r =>
+    simp only [hq, rbind_ok, Res.ok.injEq] at hev
+    subst hev
+    obtain ⟨h1, h2⟩ := hf a b r hw.1 hw.2.1 hq
+    simp [ht, h2, stackWF_cons, h1, hw.2.2]
 
 theorem sound_AND (hev : Spec.step env .AND st = .ok st') :
-    StackWF st' ∧ Typing.step .AND (st.map typeOf) = some (.ok (st'.map typeOf)) := by
-  refine sound_bool2 env st st' hw .AND (· && ·) (fun _ _ _ => rfl) ?_ rfl (fun a => by cases a <;> rfl) (fun _ => rfl) hev
-  intro a b s h
-  cases a <;> cases b <;> first | rfl | (exfalso; exact h _ _ ⟨rfl, rfl⟩)
+    StackWF st' ∧ Typing.step .AND (st.map typeOf) = some (.ok (st'.map typeOf)) :=
+  sound_binop env st st' hw .AND Spec.andV andTy (fun _ _ _ => rfl) rfl (fun a => by cases a <;> rfl) (fun _ _ _ => rfl)
+    andV_sound hev
 theorem sound_OR (hev : Spec.step env .OR st = .ok st') :
-    StackWF st' ∧ Typing.step .OR (st.map typeOf) = some (.ok (st'.map typeOf)) := by
-  refine sound_bool2 env st st' hw .OR (· || ·) (fun _ _ _ => rfl) ?_ rfl (fun a => by cases a <;> rfl) (fun _ => rfl) hev
-  intro a b s h
-  cases a <;> cases b <;> first | rfl | (exfalso; exact h _ _ ⟨rfl, rfl⟩)
+    StackWF st' ∧ Typing.step .OR (st.map typeOf) = some (.ok (st'.map typeOf)) :=
+  sound_binop env st st' hw .OR Spec.orV orTy (fun _ _ _ => rfl) rfl (fun a => by cases a <;> rfl) (fun _ _ _ => rfl)
+    orV_sound hev
 theorem sound_XOR (hev : Spec.step env .XOR st = .ok st') :
-    StackWF st' ∧ Typing.step .XOR (st.map typeOf) = some (.ok (st'.map typeOf)) := by
-  refine sound_bool2 env st st' hw .XOR xor (fun _ _ _ => rfl) ?_ rfl (fun a => by cases a <;> rfl) (fun _ => rfl) hev
-  intro a b s h
-  cases a <;> cases b <;> first | rfl | (exfalso; exact h _ _ ⟨rfl, rfl⟩)
+    StackWF st' ∧ Typing.step .XOR (st.map typeOf) = some (.ok (st'.map typeOf)) :=
+  sound_binop env st st' hw .XOR Spec.xorV orTy (fun _ _ _ => rfl) rfl (fun a => by cases a <;> rfl) (fun _ _ _ => rfl)
+    xorV_sound hev
+theorem sound_EDIV (hev : Spec.step env .EDIV st = .ok st') :
+    StackWF st' ∧ Typing.step .EDIV (st.map typeOf) = some (.ok (st'.map typeOf)) :=
+  sound_binop env st st' hw .EDIV Spec.edivV edivResTy (fun _ _ _ => rfl) rfl (fun a => by cases a <;> rfl) (fun _ _ _ => rfl)
+    edivV_sound hev
+theorem sound_LSL (hev : Spec.step env .LSL st = .ok st') :
+    StackWF st' ∧ Typing.step .LSL (st.map typeOf) = some (.ok (st'.map typeOf)) :=
+  sound_binop env st st' hw .LSL Spec.lslV shiftTy (fun _ _ _ => rfl) rfl (fun a => by cases a <;> rfl) (fun _ _ _ => rfl)
+    lslV_sound hev
+theorem sound_LSR (hev : Spec.step env .LSR st = .ok st') :
+    StackWF st' ∧ Typing.step .LSR (st.map typeOf) = some (.ok (st'.map typeOf)) :=
+  sound_binop env st st' hw .LSR Spec.lsrV shiftTy (fun _ _ _ => rfl) rfl (fun a => by cases a <;> rfl) (fun _ _ _ => rfl)
+    lsrV_sound hev
+theorem sound_SUB_MUTEZ (hev : Spec.step env .SUB_MUTEZ st = .ok st') :
+    StackWF st' ∧ Typing.step .SUB_MUTEZ (st.map typeOf) = some (.ok (st'.map typeOf)) :=
+  sound_binop env st st' hw .SUB_MUTEZ Spec.subMutezV subMutezTy (fun _ _ _ => rfl) rfl (fun a => by cases a <;> rfl)
+    (fun _ _ _ => rfl) subMutezV_sound hev
 
 theorem sound_CONCAT (hev : Spec.step env .CONCAT st = .ok st') :
     StackWF st' ∧ Typing.step .CONCAT (st.map typeOf) = some (.ok (st'.map typeOf)) := by
@@ -678,6 +792,10 @@ theorem step_sound (env : Env) (i : Instr) (st st' : List Val) (hw : StackWF st)
   case AND => exact sound_AND env st st' hw hev
   case OR => exact sound_OR env st st' hw hev
   case XOR => exact sound_XOR env st st' hw hev
+  case EDIV => exact sound_EDIV env st st' hw hev
+  case LSL => exact sound_LSL env st st' hw hev
+  case LSR => exact sound_LSR env st st' hw hev
+  case SUB_MUTEZ => exact sound_SUB_MUTEZ env st st' hw hev
   case CONCAT => exact sound_CONCAT env st st' hw hev
   case SLICE => exact sound_SLICE env st st' hw hev
   case AMOUNT => exact sound_AMOUNT env st st' hw hev
